@@ -550,6 +550,18 @@ pub fn run(args: &Args) {
             emit(&mut sink, &mut env, &Case { nl, nr, inhibit: vec![vec![(a, b)]], oov: vec![baseline_oov()] }, "directed_inhibit", false);
         }
     }
+    // every member of a list of pairs is checked, wherever it stands in the list as written or in sorted order (a bad pair
+    // between two good ones, first, last; in the second instance of the plugin)
+    for (nl, nr) in [(10i64, 10i64), (3, 2)] {
+        let (g0, g2) = ((0i128, 0i128), (nl as i128 - 1, nr as i128 - 1));
+        for bad in [(1i128, nr as i128), (1, -1), (1, 32768), (nl as i128, 0), (-1, nr as i128 - 1)] {
+            for list in [vec![g0, bad, g2], vec![bad, g0, g2], vec![g0, g2, bad], vec![g2, bad, g0], vec![g0, g0, bad, g2, g2]] {
+                emit(&mut sink, &mut env, &Case { nl, nr, inhibit: vec![list.clone()], oov: vec![baseline_oov()] }, "directed_inhibit_list", false);
+            }
+            emit(&mut sink, &mut env, &Case { nl, nr, inhibit: vec![vec![g0, g2], vec![g0, bad, g2]], oov: vec![baseline_oov()] }, "directed_inhibit_list", false);
+        }
+        emit(&mut sink, &mut env, &Case { nl, nr, inhibit: vec![vec![g0, (1, 0), g2]], oov: vec![baseline_oov()] }, "directed_inhibit_list", false);
+    }
     emit(&mut sink, &mut env, &Case { nl: 32767, nr: 3, inhibit: vec![vec![(-1, 0)]], oov: vec![baseline_oov()] }, "directed_inhibit_wrap_big", false);
     emit(&mut sink, &mut env, &Case { nl: 3, nr: 3, inhibit: vec![], oov: vec![] }, "no_oov_provider", false);
     // POS present / absent x userPOS "allow" / "forbid" / not mentioned, for every provider kind
